@@ -534,11 +534,12 @@ var defects = map[string][]string{
 		"threshold1-disagree-product-digest", "threshold1-disagree-algorithm", "threshold1-agree",
 		"permissive-disagree-algorithm", "permissive-disagree-algorithm-material", "permissive-disagree-product-digest", "permissive-none",
 		"insp-named-like-last-step", "insp-named-like-first-step", "permissive-unclean-paths",
-		"permissive-sub-beside-link-disagree", "permissive-sub-beside-link-agree", "permissive-twin-sublayouts-disagree", "permissive-twin-sublayouts-agree"},
+		"permissive-sub-beside-link-disagree", "permissive-sub-beside-link-agree", "permissive-twin-sublayouts-disagree", "permissive-twin-sublayouts-agree",
+		"threshold1-disagree-large-link", "threshold1-foreign-signature-entry-0", "threshold1-foreign-signature-entry-1"},
 	"c06": {"sub-expired", "sub-undated", "sub-rfc3339-offset", "none", "expired-long", "expired-2s", "future-1h", "garbage", "empty", "rfc3339-offset", "date-only", "year-9999", "fraction", "lowercase"},
 	"c08": {"sub-insp-named-like-first-step", "sub-insp-named-like-last-step", "sub-defective-beside-good-link", "sub-ok", "sub-ok", "sub-badsig", "sub-expired", "sub-missing-link", "sub-rule-violation", "sub-unauthorised", "sub-nested", "sub-nested-defect", "sub-summary-mismatch"},
 	"c10": {"history-same-params", "history-diff-params", "history-no-params", "history-mixed", "mixed-cert-key", "mixed-cert-key", "mixed-cert-key-unsorted", "summary-byproducts", "direct-unclean",
-		"history-multi-alg", "history-multi-alg-mismatch", "history-whitespace-rule"},
+		"history-multi-alg", "history-multi-alg-mismatch", "history-whitespace-rule", "history-param-value-has-marker"},
 	"c09": {"product-added-ignorable-name-0", "product-added-ignorable-name-1", "product-added-ignorable-name-2", "product-added-ignorable-name-3",
 		"product-added-ignorable-name-4", "product-added-ignorable-name-5", "product-added-ignorable-name-6", "product-added-ignorable-name-7",
 		"product-added-ignorable-name-8", "product-added-ignorable-name-9", "product-added-ignorable-name-10", "case-variant-rule-earlier", "product-modified-backslash-decoy", "sha512-chain-product-modified", "escaped-pattern-product-modified", "escaped-pattern-none", "insp-rewrite-same-mtime", "product-all-removed", "require-after-consume", "none", "insp-fail", "insp-fail-255", "insp-missing", "insp-empty", "product-modified", "product-added", "product-removed",
@@ -636,6 +637,9 @@ func genScenario(r *lib.Rng, focus string, idx int) *Scn {
 		i := r.Intn(len(sc.Steps))
 		needTwo(i)
 		sc.DefectArg = strconv.Itoa(i) + ":" + strconv.Itoa(r.Intn(2)) // step index : which of the two links is altered
+		if strings.HasPrefix(d, "threshold1-foreign-signature-entry-") {
+			sc.DefectArg = strconv.Itoa(i) + ":" + d[len(d)-1:]
+		}
 		if strings.HasPrefix(d, "permissive-") {
 			// no rule looks at hashes: the verdict depends on the agreement of the counted links alone
 			sc.Permissive = true
@@ -864,6 +868,14 @@ func genScenario(r *lib.Rng, focus string, idx int) *Scn {
 			sc.CertStep = i + 1
 			sc.Reps = 24
 			sc.History = []map[string]string{sc.Params, sc.Params}
+		case "history-param-value-has-marker":
+			// the value of one parameter contains the marker of another one: values are not rescanned, so the rules name
+			// files that do not exist and the chain is rejected - every time, whatever the order of the dictionary
+			ps := map[string]string{"OUT": "o{U}t", "SRC": "src", "U": "u"}
+			sc.Params = map[string]string{"OUT": "out", "SRC": "src"} // what the chain was built with
+			sc.History = []map[string]string{ps, ps}
+			sc.Reps = 24
+			sc.Insps, sc.ExpectLog = nil, nil
 		case "history-whitespace-rule":
 			// a (harmless) rule whose pattern carries surrounding blanks: parsing the rules must not rewrite the caller's layout
 			sc.Params = nil
@@ -1211,6 +1223,27 @@ func applyLinkDefects(sc *Scn, w *world, r *lib.Rng) {
 		for k, v := range extraP {
 			w.expProd[k] = v
 		}
+	case "disagree-large-link":
+		// the disagreeing link is a big file (1.3 MB of insignificant white space inside the JSON document): size must not
+		// decide whether a validly signed, authorised link is compared
+		resign(func(l *intoto.Link) { l.Products[anyKey(l.Products)] = hobj("something else") })
+		raw, err := os.ReadFile(p)
+		must(err)
+		if i := strings.Index(string(raw), "{"); i >= 0 {
+			must(os.WriteFile(p, []byte(string(raw[:i+1])+strings.Repeat(" ", 1300000)+"\n"+string(raw[i+1:])), 0o644))
+		}
+	case "foreign-signature-entry-0", "foreign-signature-entry-1":
+		// the disagreeing link of one functionary also carries a (worthless) signature entry naming the OTHER
+		// functionary's key id: it must not displace that functionary's own link
+		resign(func(l *intoto.Link) { l.Products[anyKey(l.Products)] = hobj("something else") })
+		other := pk(st.Signers[1-whichLink(sc)])
+		editJSON(p, func(wr, pl map[string]interface{}) {
+			sig := "00ff00ff"
+			if _, dsse := wr["payloadType"]; dsse {
+				sig = "AP8A/w=="
+			}
+			wr["signatures"] = append(wr["signatures"].([]interface{}), map[string]interface{}{"keyid": other.Pub.KeyID, "sig": sig})
+		})
 	case "byproducts-differ", "summary-byproducts":
 		resign(func(l *intoto.Link) { l.ByProducts["stdout"] = "completely different output"; l.Command = []string{"other"} })
 	case "junk-uncounted-badsig", "junk-uncounted-unauthorised":
